@@ -24,7 +24,9 @@ C07 spec
    "rho_s": float, "rho_p": float, "amp": float, "zeros": bool,
    "coupling": [None | {"tsize": t, "tree": node} per var],
    "peq": "names"|"ops"|"dict-names"|"dict-ops", "pvar": "atomic"|"names"|"md", "vorder": int,
-   "inverters": ["dense"|"default", "dense"|"default"]}
+   "inverters": ["dense"|"default", "dense"|"default"],
+   "reexpand": [{"kind":"same"} | {"kind":"other","seed":int,"scale":float}, ..]  (1-3 further expansions of every
+                assembled Schur system: the same reduced solution again / scale*x_p + seeded perturbation)}
   Equation k is paired with md-variable k (same grids, same number of dofs per cell); the pair
   (equation k, grid g) <-> (variable k, grid g) is primary or secondary as a whole."""
 from __future__ import annotations
@@ -257,6 +259,11 @@ def c07_spec(draw, max_depth=3):
         "pvar": draw(st.sampled_from(["atomic", "names", "md"] if whole else ["atomic"])),
         "vorder": draw(st.integers(0, 10**6)),
         "inverters": [draw(st.sampled_from(["dense", "default", "default"])) for _ in range(2)],
+        "reexpand": [draw(st.sampled_from([{"kind": "same"}, {"kind": "other", "seed": 1, "scale": 1.0},
+                                           {"kind": "other", "seed": 2, "scale": -0.5},
+                                           {"kind": "other", "seed": 3, "scale": 0.0},
+                                           {"kind": "other", "seed": 4, "scale": 3.0}]))
+                     for _ in range(draw(st.sampled_from([1, 2, 2, 3])))],
     }
 
 
